@@ -16,6 +16,7 @@ import collections
 import functools
 import hashlib
 import json
+import os
 import traceback
 
 ENGINE = None            # 'icontract' | 'plain-wrapper'
@@ -201,6 +202,22 @@ def _engine():
     return ENGINE
 
 
+
+def _keep_monitor_error(label, e):
+    """an error of the monitor itself makes the run inconclusive; the case that provoked it is kept (once per shard) so that it can be replayed"""
+    if CTX is None or CTX.counters.get("monitor-error-kept"):
+        return
+    CTX.count("monitor-error-kept")
+    try:
+        d = os.path.join(os.path.dirname(os.path.dirname(os.path.abspath(__file__))), "replays")
+        os.makedirs(d, exist_ok=True)
+        with open(os.path.join(d, f"{CTX.prop}-monitor-error.json"), "w") as f:
+            json.dump({"property": CTX.prop, "sub": "monitor-error:" + label, "case": jsonable(CTX.case), "case_index": CTX.case_index, "seed": CTX.seed,
+                       "hashseed": CTX.hashseed, "detail": {"type": type(e).__name__, "msg": str(e)[:300], "tb": traceback.format_exc(limit=12)[-3000:]}}, f, indent=1, default=repr)
+    except Exception:
+        pass
+
+
 def _decorate(fn, post, snap, label, top_only=False):
     """returns fn wrapped with snapshot+ensure. post(pre, args, kwargs, result) -> bool.
     top_only: calls nested inside another call of the same function (the library's own recursion) are
@@ -243,6 +260,7 @@ def _decorate(fn, post, snap, label, top_only=False):
             except Exception as e:
                 CTX.count("monitor-error:post:" + label)
                 CTX.count("monitor-error-msg:" + type(e).__name__ + ":" + str(e)[:80])
+                _keep_monitor_error(label, e)
                 if CTX.strict:
                     raise
                 return True
